@@ -35,7 +35,7 @@ T_ = t.TypeVar('T_')
 
 
 def plan(tier, seed):
-    shards = [{'a': i} for i in range(len(POOL))]
+    shards = [{'a': i} for i in range(len(POOL))] + [{'literals': True}]
     return shards
 
 
@@ -258,6 +258,49 @@ def judge_union(pane, res, name, U, wrap, unwrap, members, v, cellinfo, cache):
     return out
 
 
+TWINS = [(1, 1.0), (1.0, 1), (True, 1), (1, True), (0, 0.0), (0.0, 0), (0.0, -0.0), (-0.0, 0.0), (0, False), (False, 0), (5, 5.0), (5.0, 5),
+         (1, 1.0, True), (1.0, True, 1)]
+
+
+def run_twins(pane, res, U, members, info):
+    """Sequences holding values that are == but of different types (1, 1.0, True; 0.0, -0.0): each ELEMENT must come out as
+    the left-most accepting member alone produces it - whatever equal value was converted just before it in the same call."""
+    from pane.errors import ConvertError
+    grammar.fresh_typing()
+    for ctor, wrap_t in (('list', t.List[U]), ('tuplevar', t.Tuple[U, ...]), ('dict_values', t.Dict[str, U])):
+        grammar.pin(wrap_t)
+        for tw in TWINS:
+            exp = []
+            for v in tw:
+                r = next((x for x in (alone(pane, M, v) for M in members) if x[0] != 'rej'), ('rej', None))
+                exp.append(r)
+            if any(r[0] == 'raw' for r in exp):
+                continue
+            data = {str(i): v for i, v in enumerate(tw)} if ctor == 'dict_values' else list(tw)
+            try:
+                got = pane.from_data(values.fresh(data), wrap_t)
+                got = list(got.values()) if ctor == 'dict_values' else list(got)
+                out = 'ok'
+            except ConvertError:
+                out, got = 'rej', None
+            except Exception:  # noqa
+                continue
+            res['evals'] += 1
+            res['transitions'] += 1
+            res['validated'] += 1
+            want_ok = all(r[0] == 'ok' for r in exp)
+            sig = {'kind': 'equal_values_confused', 'form': ctor, 'A': info['A'], 'B': info['B']}
+            desc = f"from_data({values.expr(data)}, {ctor} of Union[{info['A']}, {info['B']}])"
+            cell = dict(info, form='twins:' + ctor, v=values.expr(list(tw)))
+            if want_ok != (out == 'ok'):
+                core.add_violation(res, sig, f"{desc} was {'rejected' if want_ok else 'accepted'}; element by element the union "
+                                             f"{'accepts every one' if want_ok else 'refuses one'}", cell, 12)
+            elif want_ok and not all(values.typed_eq(g, r[1]) for g, r in zip(got, exp)):
+                res['nontrivial'].add(f"twins|{info['A']}|{info['B']}|{ctor}")
+                core.add_violation(res, sig, f"{desc} returned {core.srepr(got, 70)}; element by element the left-most accepting member "
+                                             f"gives {core.srepr([r[1] for r in exp], 70)}", cell, 12)
+
+
 def run_pair(pane, res, ai, bi, ci, tier):
     A_ast, B_ast = POOL[ai], POOL[bi]
     C_ast = THIRD[ci] if ci is not None else None
@@ -290,12 +333,47 @@ def run_pair(pane, res, ai, bi, ci, tier):
                                    f"{core.srepr(o1[1], 50)}, second pass over the same values -> {o2[0]} {core.srepr(o2[1], 50)}",
                                    dict(info, form=name, v=values.expr(v), twice=True), 10)
         res['states'] += len(vals)
+        if name == 'plain' and C is None and members:
+            run_twins(pane, res, U, members, info)
+
+
+LIT_VALUES = [0, 1, 2, 0.0, 1.0, True, False, 'a', 'b', 'c', None, [0], '1']
+
+
+def literal_triples():
+    L = t.Literal
+    import decimal
+    return [(L[0], float, L[1]), (L[1], float, L[0]), (L['a'], str, L['b']), (L[0], L[1], float), (float, L[0], L[1]),
+            (L[0], complex, L[1], float, L[2]), (L['1'], decimal.Decimal, L['2']), (L[None], int, L[0]), (L[0, 1], float, L[2]),
+            (L[True], int, L[False])]
+
+
+def run_literals(pane, res):
+    """Unions with several Literal members that are NOT adjacent: the member between them may take a later literal's value."""
+    for k, tri in enumerate(literal_triples()):
+        grammar.fresh_typing()
+        U = grammar.pin(t.Union[tri])
+        members = t.get_args(U)
+        info = {'ai': -1, 'bi': k, 'ci': None, 'A': 'literal-triple', 'B': ', '.join(getattr(m, '__name__', None) or repr(m).replace('typing.', '') for m in tri), 'C': None}
+        Holder = grammar.pin(type('HolderL', (pane.PaneBase,), {'__annotations__': {'f': U}, '__module__': 'mc.generated'}))
+        cache: t.Dict[t.Any, t.Any] = {}
+        for name, T, wrap, unwrap in (('plain', U, lambda v: v, lambda r: r), ('list_elem', grammar.pin(t.List[U]), lambda v: [v, v], lambda r: r[1]),
+                                      ('optional_outside', grammar.pin(t.Optional[U]), lambda v: v, lambda r: r),
+                                      ('dc_field', Holder, lambda v: {'f': v}, lambda r: r.f),
+                                      ('dict_value', grammar.pin(t.Dict[str, U]), lambda v: {'k': v}, lambda r: r['k'])):
+            mem = members if name != 'optional_outside' else None
+            for v in LIT_VALUES:
+                judge_union(pane, res, name, T, wrap, unwrap, mem, v, info, cache)
+            res['states'] += len(LIT_VALUES)
 
 
 def run_shard(shard, tier):
     pane = core.import_pane()
     warnings.simplefilter('ignore')
     res = core.new_result()
+    if shard.get('literals'):
+        run_literals(pane, res)
+        return res
     ai = shard['a']
     for bi in range(ai + 1, len(POOL)):
         # both member orders in the SAME interpreter (a memo keyed by equality would confuse Union[A, B] with Union[B, A])
@@ -315,6 +393,10 @@ def replay(cell):
     pane = core.import_pane()
     warnings.simplefilter('ignore')
     res = core.new_result()
+    if cell['ai'] < 0:
+        run_literals(pane, res)
+        out = [v for lst in res['violations'].values() for v in lst]
+        return [v for v in out if v['cell'].get('bi') == cell['bi'] and v['cell'].get('form') == cell.get('form') and v['cell'].get('v') == cell.get('v')] or out
     lo, hi = sorted((cell['ai'], cell['bi']))
     # the same sequence as the shard: both member orders in one interpreter
     for x, y in ((lo, hi), (hi, lo), (lo, hi)):
